@@ -203,6 +203,10 @@ type verifFake struct {
 	// moveBatchPartial: the refused batch is a cluster batch (no MULTI/EXEC on the wire): one command
 	// is answered MOVED, the node executes all the others
 	moveBatchPartial bool
+	// holdReceive > 0: the replies of that batch execution (1-based) stay on the wire until
+	// releaseReceive is closed (a slow but healthy target): Receive of that batch blocks meanwhile
+	holdReceive    int
+	releaseReceive chan struct{}
 }
 
 var verifErrReply = common.RedisError("OOM command not allowed when used memory > 'maxmemory'")
@@ -567,6 +571,7 @@ type verifBatcher struct {
 	sent bool
 	reps []interface{}
 	err  error
+	ord  int // ordinal of this batch execution
 }
 
 func (b *verifBatcher) Put(cmd string, args ...interface{}) error {
@@ -576,6 +581,7 @@ func (b *verifBatcher) Put(cmd string, args ...interface{}) error {
 func (b *verifBatcher) Len() int { return len(b.cmds) }
 func (b *verifBatcher) run() {
 	b.f.batchRuns++
+	b.ord = b.f.batchRuns
 	if b.f.moveBatch > 0 && b.f.batchRuns == b.f.moveBatch {
 		b.err = errors.Join(common.ErrMove, errors.New("MOVED 1 fake:6380"))
 		if b.f.moveBatchPartial {
@@ -623,7 +629,12 @@ func (b *verifBatcher) Dispatch() error {
 	b.sent = true
 	return b.err
 }
-func (b *verifBatcher) Receive() ([]interface{}, error) { return b.reps, b.err }
+func (b *verifBatcher) Receive() ([]interface{}, error) {
+	if b.f.holdReceive > 0 && b.ord == b.f.holdReceive && b.f.releaseReceive != nil {
+		<-b.f.releaseReceive
+	}
+	return b.reps, b.err
+}
 
 // verifStateAfter rebuilds the target a restarted process would find after a
 // crash that let exactly the first p logged requests reach the server: requests
